@@ -258,6 +258,10 @@ func GenC12(seed uint64, run int) *Trace {
 	cfg := GenConfig(r, c12Store(r))
 	t := &Trace{Prop: "C12", Engine: "session", Seed: seed, Run: run, Cfg: cfg}
 	alpha := genAlphabet(r, r.Range(1, 6), r.Chance(1, 10))
+	if r.Chance(1, 2500) {
+		// a block that puts its section exactly at / just over the default 8 MiB section size limit
+		alpha = append(alpha, BlkSpec{Kind: "raw", Seed: 77, Size: 8<<20 - 36 + r.Intn(2)})
+	}
 	n := r.Range(0, 8)
 	mismatch := r.Chance(1, 3)
 	if mismatch && r.Chance(1, 2) && len(t.Cfg.Roots) >= 1 {
